@@ -60,7 +60,7 @@ def floors(tier):
     scale = 1 if tier == 'quick' else 20
     return {'evaluations': 600 * scale, 'tables': 300 * scale, 'backend_runs_synchronous': 100 * scale, 'backend_runs_threads': 100 * scale,
             'backend_runs_pyfunc': 60 * scale, 'backend_runs_processes': 6 * scale, 'train_mode_cases': 20 * scale,
-            'registry_states_compared': 20 * scale, 'shared_source_cases': 10}
+            'registry_states_compared': 20 * scale, 'shared_source_cases': 10, 'repeated_calls_compared': 60 * scale}
 
 
 # ------------------------------------------------------------------------------------------------ one execution
@@ -277,9 +277,48 @@ def check_case(ctx, spec, backends, workroot):
                 ctx.inconclusive(f'{backend} timed out once but finished alone ({verdict})')
             raise StopShard()
         compare(ctx, spec, backend, reference, observed, leafdgs)
+    if 'pyfunc' in backends and not spec['assets']:
+        check_repeated_calls(ctx, spec, case)
     if ctx.counters['tables'] % 60 == 1:
         ctx.sample({'spec': spec, 'backends': backends, 'reference_values': len(reference['log'])})
     shutil.rmtree(case, ignore_errors=True)
+
+
+def check_repeated_calls(ctx, spec, workdir):
+    """Serving use of the single-function runner: ONE Expression is built and called repeatedly with different entries.
+    Every call must deliver what the interpreter delivers for that entry (and what a freshly built expression delivers)."""
+    from forml import flow
+    from forml.flow._graph import port
+    from forml.provider.runner import pyfunc
+    from vlib import graphgen, symbolic
+
+    port.Subscription._PORTS.clear()  # pylint: disable=protected-access
+    built = graphgen.build(spec)
+    try:
+        symbols = flow.compile(built.segment, None)
+        reused = pyfunc.Expression(symbols)
+    except Exception:  # pylint: disable=broad-except
+        return  # build failures are reported by the single-run comparison
+    ctx.count('repeated_call_cases')
+    for k in range(1, 4):
+        entry = symbolic.Term('entry', k)
+        interp = symbolic.Interpreter(symbols, entry=entry).run()
+        used = {id(a) for s in interp.symbols for a in s.arguments}
+        tails = [interp.results[id(s.instruction)] for s in interp.symbols if id(s.instruction) not in used]
+        try:
+            observed = reused(entry)
+        except Exception as err:  # pylint: disable=broad-except
+            ctx.violation('pyfunc-repeated-call-raises', f'call #{k} of one Expression raised {type(err).__name__}: {err}',
+                          {'spec': spec, 'backend': 'pyfunc-repeated'})
+            return
+        ctx.count('evaluations')
+        ctx.count('repeated_calls_compared')
+        if len(tails) != 1 or symbolic.strip_out(observed) != symbolic.strip_out(tails[0]):
+            stale = any(t.op == 'entry' and t.args[0] != k for t in symbolic.strip_out(observed).walk())
+            key = 'pyfunc-repeated-call-mixes-requests' if stale else 'pyfunc-repeated-call-differs'
+            ctx.violation(key, f'call #{k} with entry({k}) delivered {symbolic.strip_out(observed).show(6)} expected '
+                          f'{symbolic.strip_out(tails[0]).show(6) if tails else None}', {'spec': spec, 'backend': 'pyfunc-repeated'})
+            return
 
 
 class StopShard(Exception):
@@ -337,6 +376,9 @@ DIRECTED = [
 def replay(ctx, witness):
     workroot = tempfile.mkdtemp(prefix='c02-')
     try:
+        if witness['backend'] == 'pyfunc-repeated':
+            check_repeated_calls(ctx, witness['spec'], workroot)
+            return
         check_case(ctx, witness['spec'], [witness['backend']], workroot)
     except StopShard:
         pass
